@@ -114,6 +114,16 @@ func c14Templates() map[string][]gen.Node {
 			&gen.NInclude{Tpl: str("part"), With: &gen.EHash{Keys: []gen.Expr{nm("w")}, Vals: []gen.Expr{&gen.EHash{Keys: []gen.Expr{nm("x")}, Vals: []gen.Expr{num(1)}}}}},
 			tx("("), pr(&gen.EHash{Keys: []gen.Expr{nm("a")}, Vals: []gen.Expr{num(1)}}), tx(")"),
 			pr(&gen.EInterp{Parts: []gen.Expr{&gen.EStr{S: "i "}, &gen.EAttr{X: &gen.EGroup{X: &gen.EHash{Keys: []gen.Expr{nm("k")}, Vals: []gen.Expr{&gen.EHash{Keys: []gen.Expr{nm("j")}, Vals: []gen.Expr{num(7)}}}}}, Key: str("k"), Dot: true}}})},
+		// ... also when the hashes stand inside other brackets, and when the inner hash holds an interpolated string
+		"hash-in-brackets": {&gen.NSet{Name: "rows", X: &gen.EArr{Els: []gen.Expr{&gen.EHash{Keys: []gen.Expr{nm("a")}, Vals: []gen.Expr{&gen.EHash{Keys: []gen.Expr{nm("b")}, Vals: []gen.Expr{num(1)}}}}}}},
+			pr(&gen.EAttr{X: &gen.EAttr{X: &gen.EAttr{X: nm("rows"), Key: num(0)}, Key: str("a"), Dot: true}, Key: str("b"), Dot: true}),
+			pr(&gen.ECall{Fn: "fn", Args: []gen.Expr{&gen.EHash{Keys: []gen.Expr{nm("k")}, Vals: []gen.Expr{&gen.EHash{Keys: []gen.Expr{nm("b")}, Vals: []gen.Expr{num(2)}}}}}}),
+			pr(&gen.EFilter{X: nm("s"), Name: "wrap", Args: []gen.Expr{&gen.EHash{Keys: []gen.Expr{nm("k")}, Vals: []gen.Expr{&gen.EHash{Keys: []gen.Expr{nm("b")}, Vals: []gen.Expr{num(3)}}}}}}),
+			pr(&gen.EAttr{X: &gen.EAttr{X: &gen.EGroup{X: &gen.EHash{Keys: []gen.Expr{nm("a")}, Vals: []gen.Expr{&gen.EHash{Keys: []gen.Expr{nm("b")}, Vals: []gen.Expr{num(4)}}}}}, Key: str("a"), Dot: true}, Key: str("b"), Dot: true}),
+		},
+		"hash-with-interpolation": {&gen.NSet{Name: "hi", X: &gen.EHash{Keys: []gen.Expr{nm("a")}, Vals: []gen.Expr{&gen.EHash{Keys: []gen.Expr{nm("b")}, Vals: []gen.Expr{&gen.EInterp{Parts: []gen.Expr{&gen.EStr{S: "v"}, nm("s")}}}}}}},
+			pr(&gen.EAttr{X: &gen.EAttr{X: nm("hi"), Key: str("a"), Dot: true}, Key: str("b"), Dot: true}),
+			pr(&gen.EAttr{X: &gen.EGroup{X: &gen.EHash{Keys: []gen.Expr{nm("a")}, Vals: []gen.Expr{&gen.EInterp{Parts: []gen.Expr{nm("s")}}}}}, Key: str("a"), Dot: true})},
 		"do":              {&gen.NDo{X: &gen.ECall{Fn: "fn", Args: []gen.Expr{num(1)}}}},
 		"verbatim":        {&gen.NVerbatim{S: "{{ raw }}{% if x %}y{% endif %}{{ 'unclosed"}},
 		"arithmetic":      e(bin("-", bin("+", num(1), bin("*", num(2), num(3))), bin("/", num(8), num(4)))),
